@@ -1,11 +1,18 @@
 #!/bin/bash
-# Build the static Coq development (Lib, Model). Offline; everything from files on disk.
+# Build the static Coq development (Lib + the Model files the claimed properties depend on). Offline.
 cd "$(dirname "$0")"
 export PYTHONPATH=/repo:/verif PYTHONHASHSEED=0 PYTHONDONTWRITEBYTECODE=1
 /venv/bin/python - <<'P'
-import sys
-from harness import core
-ok, log = core.ensure_static_built()
-print(log[-2000:])
+import sys, json, importlib
+from harness import core, check
+man = json.load(open("/verif/MANIFEST.json"))
+deps = set()
+for c in man["checks"]:
+    pid = c["property_id"]
+    prop = importlib.import_module(f"props.{pid}")
+    deps |= set(check.dep_closure(pid, getattr(prop, "TIE_IMPORTS", "")))
+ok, log = core.ensure_static_built(sorted(deps))
+print(log[-1500:])
+print(f"setup: built {len(deps)} files for {len(man['checks'])} claimed properties: {'ok' if ok else 'FAILED'}")
 sys.exit(0 if ok else 1)
 P
